@@ -15,8 +15,12 @@ def _tlc(ctx, cfg, timeout, simulate=None):
     memory).  Vacuity of the actions is checked on the printed transitions instead."""
     r = vlib.tlc(ctx.spec("MC_Market.tla"), ctx.spec(cfg + ".cfg"), workers=8, timeout=timeout,
                  simulate=simulate, coverage=False)
-    vlib.log("  tlc %s: %d generated, %d distinct, depth %d, %.1fs%s" % (
-        cfg, r.generated, r.distinct, r.depth, r.wall, "" if r.ok else " [NOT OK: %s]" % (r.violated or r.error)))
+    if simulate:
+        vlib.log("  tlc %s (simulation, %s traces per worker): %.1fs%s" % (
+            cfg, simulate, r.wall, " [%s]" % (r.violated or r.error) if (r.violated or r.error) else ""))
+    else:
+        vlib.log("  tlc %s: %d generated, %d distinct, depth %d, %.1fs%s" % (
+            cfg, r.generated, r.distinct, r.depth, r.wall, "" if r.ok else " [NOT OK: %s]" % (r.violated or r.error)))
     if r.violated:
         raise vlib.ToolError("specification MC_Market (%s) violates its own invariant %s: a monitor does not hold "
                              "on the design (calibration)\n%s" % (cfg, r.violated, _tail(r.raw)))
